@@ -261,14 +261,14 @@ class _CountingLoader:
 class FcWorld:
     """Objects of one run: region, file, forecast factory."""
 
-    def __init__(self, scn, store):
+    def __init__(self, scn, store, fname='simfc'):
         self.scn = scn
         self.store = store
         self.cfg = scn['config']
         self.J = len(scn['cats'])
         self.path = None
         if self.cfg['source'] == 'file':
-            self.path = store.path('simfc_2010-01-01T00-00-00-000000.csv')
+            self.path = store.path('%s_2010-01-01T00-00-00-000000.csv' % fname)
             build.write_forecast_csv(self.path, scn['cats'], self.cfg['encoding'])
 
     def region(self):
